@@ -60,9 +60,12 @@ impl Context {
     { &self.waker }
 }
 impl Waker {
-    /// waking consumes the waker; the ghost wake log records it
+    /// waking consumes the waker; the ghost wake log records it.  A waker is foreign code (it may poll the task inline or take
+    /// the task's own locks): the scheduler's wakers must be called with none of its locks held (lexical lockset empty)
     #[verifier::external_body]
-    pub fn wake(self, Tracked(w): Tracked<&mut WCtx>)
+    pub fn wake(self, Tracked(w): Tracked<&mut WCtx>, Ghost(locks): Ghost<u64>)
+        requires
+            locks == 0,                                       // OBL C06,C07 waker_called_outside_critical_section
         ensures final(w).woken == old(w).woken.push(self), final(w).installed == old(w).installed,
     { unimplemented!() }
 }
